@@ -432,8 +432,15 @@ func (l *ledgers) onVoteExitStability(ni *nodeInc, req *voteReq, result rpcResul
 	}
 	run.reach("stability_clause_evaluated")
 	if result == success || ni.r.term != o.voteTermBefore {
-		run.violate("C17", "leader_disrupted", "vote_disrupts_live_leader", "%v heard from leader %d (term %d) %v ago, yet a vote request of node %d for term %d without transfer permission was answered %d and its term went %d -> %d",
-			ni, L, o.heardTerm, time.Duration(local), req.src, req.term, result, o.voteTermBefore, ni.r.term)
+		// how did the voter come to forget (or ignore) the leader it had just heard from?
+		cause := "leader_still_known"
+		if o.followerTimeoutAt >= o.heardAt {
+			cause = "election_timer_fired"
+		} else if o.leaderClearedAt >= o.heardAt {
+			cause = "disconnect_notification"
+		}
+		run.violate("C17", "leader_disrupted", "vote_disrupts_live_leader:"+cause, "%v heard from leader %d (term %d) %v ago (%s since), yet a vote request of node %d for term %d without transfer permission was answered %d and its term went %d -> %d",
+			ni, L, o.heardTerm, time.Duration(local), cause, req.src, req.term, result, o.voteTermBefore, ni.r.term)
 	}
 }
 
